@@ -41,15 +41,49 @@ def classify(case, impl, model, oracle):
     return "match:%s" % ("0" if n == 0 else "1" if n == 1 else "2-4" if n < 5 else "5+")
 
 
+def _rev8(x):
+    return int("{:08b}".format(x)[::-1], 2)
+
+
 def finding_matches(entry, case, impl, model, oracle):
-    return False
+    """C23-1: the ONLY difference between what the parser yields and what the file denotes is the bit map of WKS
+    records (type 11, class IN) that list ports: same length, address and protocol equal, every octet of the bit map
+    the bit-reversal of the expected one.  (A WKS record in the \\# form is returned as written, so it never differs.)
+    The model must agree with the implementation octet for octet."""
+    if entry.get("id") != "C23-1" or impl != model:
+        return False
+    a, b = impl.split(" ; "), oracle.split(" ; ")
+    if len(a) != len(b):
+        return False
+    hit = False
+    for x, y in zip(a, b):
+        if x == y:
+            continue
+        fx, fy = x.split(), y.split()
+        if len(fx) != len(fy) or not x.startswith("R") or fx[0] != fy[0]:
+            return False
+        dx = dy = None
+        for u, v in zip(fx[1:], fy[1:]):
+            if u == v:
+                continue
+            if not (u.startswith("d=") and v.startswith("d=")):
+                return False
+            dx, dy = u[2:], v[2:]
+        if dx is None or "y=11" not in fx or "c=1" not in fx or dx == "-" or dy == "-" or len(dx) != len(dy):
+            return False
+        bx, by = bytes.fromhex(dx), bytes.fromhex(dy)
+        if len(bx) <= 5 or bx[:5] != by[:5] or any(_rev8(p) != q for p, q in zip(bx[5:], by[5:])):
+            return False
+        hit = True
+    return hit
 
 
 CHECK = {
     "property": "C23",
     "props": "Props/C23.v",
     "theorems": ["c23_fields_disjoint", "c23_escape", "c23_character_string", "c23_name", "c23_uint", "c23_class", "c23_type",
-                 "c23_ipv4", "c23_ipv6", "c23_navigation", "c23_line_end", "c23_rdata", "c23_record_line", "c23_line", "c23_file_roundtrip", "c23_file_roundtrip_records_only"],
+                 "c23_ipv4", "c23_ipv6", "c23_navigation", "c23_line_end", "c23_rdata", "c23_record_line", "c23_line", "c23_file_roundtrip", "c23_file_roundtrip_records_only",
+                 "c23_file_roundtrip_impl_order", "c23_wks_bit_order_refuted"],
     "allowed_axioms": [],
     "suites": [
         {"name": "zonefile", "runner_name": "C24_run", "impl_bin": "impl_c24", "extract": "Extract/ExC24.v", "driver": "run_c24.ml",
@@ -76,7 +110,8 @@ CHECK = {
         "Coq 8.16.1 kernel; axioms: none",
         "Spec/ZfRenderS.v (the Coq renderer: choices, legality file_ok, render, number_lines) is the specification of the theorems; it covers every "
         "RR type the parser has a syntax for (incl. WKS), $ORIGIN/$TTL/$INCLUDE lines, IPv6 text with or without '::' "
-        "(no embedded IPv4), no raw CR in unquoted tokens; the WKS bit order and the set of mnemonics follow the implementation (docs/C23.md)",
+        "(no embedded IPv4), no raw CR in unquoted tokens; the WKS bit map is numbered as RFC 1035 3.4.2/2.3.2 say (rfc_order; the theorems exclude the class of known finding C23-1 and "
+        "c23_file_roundtrip_impl_order covers it with the implementation's numbering); the set of mnemonics follows the implementation (docs/C23.md)",
         "the Python renderer checks/zfgen.py is the independent specification of the differential run (it never reads the parser) and covers "
         "the presentations the Coq renderer leaves out (the embedded-IPv4 form of IPv6 text)",
         "the model of the parser (Model/Zf*.v, shared with C24) and its correspondence to the code (tested, not proved)",
@@ -94,7 +129,9 @@ MANIFEST = {
                    "token-level (escapes, strings, names, integers, class/type, IPv4, IPv6), field-navigation, RDATA, record-line theorems. The model is tied to "
                    "the code by a differential run in which an independent Python renderer makes random presentation choices and the real parser and the "
                    "extracted model must both return exactly the generating records with their line numbers."),
-    "level_note": ("The Coq renderer does not cover: the embedded-IPv4 form of IPv6 text, raw CR in unquoted "
+    "level_note": ("KNOWN FINDING C23-1 (WKS bit order): WKS records written in the WKS syntax with a port list are excluded from the RFC-order theorems "
+                   "(c23_wks_bit_order_refuted is the witness, c23_file_roundtrip_impl_order covers them with the implementation's order); the check matches exactly "
+                   "that difference and nothing else. The Coq renderer does not cover: the embedded-IPv4 form of IPv6 text, raw CR in unquoted "
                    "tokens (the Python renderer of the differential run does). Trusted: the model/code correspondence (tested), Coq kernel, extraction."),
     "technique": "machine-checked proof in Coq (parse-of-render, all stages) + model/implementation/specification correspondence check on rendered files",
     "design_ref": "DESIGN.md §4 C23",
